@@ -65,7 +65,7 @@ PlayCodes == %(play)s
 CtlQueued == \E i \in DOMAIN K.L.queue : K.L.queue[i].p /\ K.L.queue[i].x = 0 /\ K.L.queue[i].y \in CtlCodes
 \* no input while a control key press waits in the queue (the recording boundary would not be determined by
 \* the input order); at most %(held)d keys are held at a time; after the last save only play keys are pressed%(replay_doc)s
-EnvCan == Alive /\ Len(K.L.queue) < QMax /\ ~CtlQueued
+EnvCan == Alive /\ Len(K.L.queue) < QMax %(ctl_guard)s
 EPress(c) == /\ EnvCan /\ c \notin phys /\ Cardinality(phys) < %(held)d %(press_guard)s
              /\ (c \notin PlayCodes => K.dyn.ns < %(saves)d)
              /\ K' = HandleInput(K, "d", c) /\ phys' = phys \cup {c}
@@ -78,7 +78,7 @@ ERelease(c) == /\ EnvCan /\ c \in phys %(release_guard)s
 """
 
 
-def instance(name, desc, params, D=1, qmax=1, maclen=3, free_replay=False, saves=1, held=2, drift_limit=150):
+def instance(name, desc, params, D=1, qmax=1, maclen=3, free_replay=False, saves=1, held=2, drift_limit=150, late=False):
     """The exhaustive instance: every physically consistent typing history over the keys within the bounds: at most
     `saves` macros saved, at most `maclen` stored events in a recording, gaps 0..D ticks between recorded events,
     at most qmax unprocessed events.  States in which a macro was saved with two or more synthesized releases are
@@ -90,6 +90,9 @@ def instance(name, desc, params, D=1, qmax=1, maclen=3, free_replay=False, saves
     play = "{" + ", ".join(str(c["c"]) for c in params["ctl"] if c["k"] == "play") + "}"
     env = ENV_TLA % dict(
         ctl=ctl, rec=rec, play=play, saves=saves, held=held,
+        # late=True: input may arrive while a control key press is still queued (the known defect class
+        # `[late control key]`: TLC finds the rejections in the model, they are confirmed on the code)
+        ctl_guard="" if late else "/\\ ~CtlQueued",
         replay_doc="" if free_replay else "; while a replay runs only control keys are released",
         press_guard="" if free_replay else "/\\ K.dyn.rep = <<>>",
         release_guard="" if free_replay else "/\\ (K.dyn.rep = <<>> \\/ c \\in CtlCodes)")
@@ -126,6 +129,8 @@ def family(tier):
          dict(D=5, saves=1, maclen=3, held=2 if big else 1)),
         # bursts (two unprocessed events) and typing while the replay runs
         ("burst", make(["rec1", "play1"], A, "constant", 2), dict(D=0, saves=1, maclen=2, qmax=2, free_replay=True)),
+        # control keys processed later than they arrive: bursts that include the record / stop keys
+        ("late", make(["rec1", "stop", "play1"], A, "constant", 2), dict(D=0, saves=1, maclen=2 if big else 1, qmax=2, late=True)),
     ]
     if big:
         F += [
@@ -149,7 +154,7 @@ def selftest_model(wd):
         inst = instance("mm_%s" % bug, desc, params, **kw)
         inst["bug"] = bug
         inst["edges"] = False
-        r = mc.check_instance(inst, wd, workers=8, timeout=1500, replay=False)
+        r = mc.check_instance(inst, wd, workers=6, timeout=1500, replay=False)
         out.append({"bug": bug, "instance": iname, "states": r["states"], "rejections": r["n_monerr"]})
         log("[c19] model mutant %s on %s: %d rejections" % (bug, iname, r["n_monerr"]))
         if r["n_monerr"] == 0:
@@ -393,7 +398,7 @@ def run(tier, seed):
         # one directory per instance: the instances of the quick tier run concurrently
         return name, params, mc.check_instance(instance(name, desc, params, drift_limit=150 if tier == "quick" else 1500, **kw),
                                                workdir("c19/" + name),
-                                               workers=4 if tier == "quick" else 8, timeout=3000)
+                                               workers=2 if tier == "quick" else 6, timeout=3000)
     build_harness()
     cfgdesc.keytable()
     if tier == "quick":
